@@ -38,14 +38,68 @@ func runesToBytes(rs []rune) []byte {
 	return out
 }
 
+// specialPairs: the structured (haystack, needle) pairs — hash-collision decoys, adjacent members of one
+// orbit, near misses at one byte — for the relational properties, which otherwise draw from the token
+// streams only
+func (x *Ctx) specialPairs(cb func(s, t []byte)) {
+	x.collisionPairs(cb)
+	k := 0
+	for r := rune(0x80); r <= 0x1FFFF; r++ {
+		if orbitMin(r) != r {
+			continue
+		}
+		o := orbitOf(r)
+		if len(o) < 2 {
+			continue
+		}
+		k++
+		if len(o) < 3 && utf8.RuneLen(o[0]) == utf8.RuneLen(o[1]) && k%9 != 0 {
+			continue // every ninth of the plain two-member orbits, all the others
+		}
+		for _, a := range o {
+			for _, b := range o {
+				if a != b {
+					s := []byte(string(a) + string(b) + "z")
+					cb(s, []byte(string(b)))
+					cb(s, []byte(string(b)+"z"))
+					cb(append([]byte("x"), s...), []byte(string(a)+string(a)))
+				}
+			}
+		}
+	}
+	base := []byte("config_2 Value-7 [xyz] {QRS}")
+	for _, L := range []int{8, 16, 17} {
+		for _, pos := range []int{0, 7, L - 1} {
+			for _, bit := range []uint{0, 5} {
+				needle := append([]byte{}, base[:L]...)
+				miss := append([]byte{}, needle...)
+				miss[pos] ^= 1 << bit
+				cb(append(append([]byte{}, miss...), needle...), needle)
+				cb(append(append([]byte("0123456789abcdef01"), miss...), '-'), needle)
+			}
+		}
+	}
+}
+
 func (x *Ctx) hashCollisions(fns []string) {
+	n := 0
+	x.collisionPairs(func(s, needle []byte) {
+		for _, fn := range fns {
+			x.eval(&Case{Fn: fn, S: s, T: needle}, n%7 == 0)
+			n++
+		}
+		x.internalIndex(s, needle)
+	})
+	x.note("hash-collision decoys (prime %d): %d cases", rkPrime(), n)
+}
+
+func (x *Ctx) collisionPairs(cb func(s, needle []byte)) {
 	p := rkPrime()
 	bases := [][]rune{
 		{0x4E16, 0x754C}, {0x1F600, 0x4E00}, {0x3042, 0x8A9E}, {0x4E16, 0x754C, 'k'}, {'k', 0x4E16, 0x754C},
 		{0xFFFD, 0x4E16, 0x754C}, {0x4E16, 0x754C, 0xFFFD}, {0x3042, 0x8A9E, 0x4E16, 0x754C}, {'1', 0x4E16, 0x754C, 's', 's'},
 	}
 	pads := []string{"", "x", "世x", "xxxxxxxxxxxxxxxxxxxxxxxxxxxxxxxxxxxxxxxx", "界界界界界界界界界界界界界界界界界界界界界界界界界界界界界界界界界界"}
-	n, built := 0, 0
 	for _, nd := range bases {
 		// positions of adjacent caseless pairs in the needle
 		for i := 0; i+1 < len(nd); i++ {
@@ -68,7 +122,6 @@ func (x *Ctx) hashCollisions(fns []string) {
 				decoys = append(decoys, d)
 			}
 			for _, dc := range decoys {
-				built++
 				needle := runesToBytes(nd)
 				real := x.g.recase(needle, false, 0.7)
 				decoy := runesToBytes(dc)
@@ -82,16 +135,11 @@ func (x *Ctx) hashCollisions(fns []string) {
 							[]byte(pre + string(real) + "-" + string(decoy) + "-" + string(real) + post),
 						}
 						for _, s := range hay {
-							for _, fn := range fns {
-								x.eval(&Case{Fn: fn, S: s, T: needle}, n%7 == 0)
-								n++
-							}
-							x.internalIndex(s, needle)
+							cb(s, needle)
 						}
 					}
 				}
 			}
 		}
 	}
-	x.note("hash-collision decoys: %d decoy windows (prime %d), %d cases", built, p, n)
 }
